@@ -12,6 +12,7 @@ CONSTANTS
   Indents = {}
   Cap = 1
   AsBuilt = FALSE
+  Bounded = TRUE
   TrackMain = TRUE
   Obs <- ObsEmit
 INVARIANTS TypeOK RefsMatchHolders QuiescenceClosed MainMatches NoStaleUse LoaderSane
